@@ -529,6 +529,10 @@ func nodeType2(interp *Interpreter, sc *scope, n *node, seen []*node) (t *itype,
 				t = untypedString(n)
 			case constant.Int:
 				t = untypedInt(n)
+				if strings.HasPrefix(n.ident, "'") {
+					// A rune literal, already converted to a constant by a previous call.
+					t = untypedRune(n)
+				}
 			case constant.Float:
 				t = untypedFloat(n)
 			case constant.Complex:
